@@ -10,7 +10,7 @@ use std::path::PathBuf;
 use super::glob::Pattern;
 use super::{Matcher, MatcherIO, WalkEntry};
 
-fn read_link_target(file_info: &WalkEntry) -> Option<PathBuf> {
+fn read_link_target(file_info: &WalkEntry, matcher_io: &mut MatcherIO) -> Option<PathBuf> {
     match file_info.path().read_link() {
         Ok(target) => Some(target),
         Err(err) => {
@@ -23,6 +23,7 @@ fn read_link_target(file_info: &WalkEntry) -> Option<PathBuf> {
                     file_info.path().display(),
                     err
                 );
+                matcher_io.set_exit_code(1);
             }
 
             None
@@ -44,12 +45,12 @@ impl LinkNameMatcher {
 }
 
 impl Matcher for LinkNameMatcher {
-    fn matches(&self, file_info: &WalkEntry, _: &mut MatcherIO) -> bool {
+    fn matches(&self, file_info: &WalkEntry, matcher_io: &mut MatcherIO) -> bool {
         if !file_info.file_type().is_symlink() {
             // Not a link, or a link the follow mode resolves.
             return false;
         }
-        if let Some(target) = read_link_target(file_info) {
+        if let Some(target) = read_link_target(file_info, matcher_io) {
             self.pattern.matches(&target.to_string_lossy())
         } else {
             false
